@@ -1,36 +1,92 @@
 #!/usr/bin/env python3
-"""Run the quick checks against each seeded change on a scratch copy of /repo (the copy is made
-outside /repo and /verif, patched, checked with VERIF_REPO pointing at it, and removed).
-usage: run_seeded.py [dir-name ...]   (default: all under /verif/seeded)
-Writes /verif/seeded/RESULTS.json."""
-import json, os, shutil, subprocess, sys, time
+"""Run the quick checks against each seeded change on a scratch copy of /repo.
+For every change: copy /repo (outside /repo and /verif), apply patch.diff, run the property's quick check
+with VERIF_REPO pointing at the copy and VERIF_OUT at a scratch output directory, remove the copy.
+The checks are run from a SNAPSHOT of /verif (so that editing /verif meanwhile cannot disturb them);
+--workers N runs N snapshots in parallel (each with its own kani build cache and scratch paths).
+usage: run_seeded.py [--workers N] [--only-missing] [dir-name ...]     results: /verif/seeded/RESULTS.json"""
+import fcntl
+import json
+import os
+import shutil
+import subprocess
+import sys
+import time
+
 SEEDED = "/verif/seeded"
-COPY = "/tmp/verif-seeded-repo"
-OUT = "/tmp/verif-seeded-out"
-names = sys.argv[1:] or sorted(d for d in os.listdir(SEEDED) if os.path.isdir(os.path.join(SEEDED, d)))
 respath = os.path.join(SEEDED, "RESULTS.json")
-for n in names:
-    results = json.load(open(respath)) if os.path.exists(respath) else {}
-    d = os.path.join(SEEDED, n)
-    meta = json.load(open(os.path.join(d, "meta.json")))
-    props = meta.get("check_properties") or [meta["property"]]
-    shutil.rmtree(COPY, ignore_errors=True)
-    os.makedirs(COPY)
-    subprocess.run(["rsync", "-a", "--exclude", "target", "--exclude", "node_modules", "--exclude", "javascript", "--exclude", ".git", "/repo/", COPY + "/"], check=True)
-    ap = subprocess.run(["patch", "-p1", "--no-backup-if-mismatch", "-i", os.path.join(d, "patch.diff")], cwd=COPY, capture_output=True, text=True)
-    if ap.returncode != 0:
-        results[n] = {"applied": False, "err": (ap.stdout + ap.stderr)[-400:]}
-        json.dump(results, open(respath, "w"), indent=1)
-        print(n, "PATCH DOES NOT APPLY", ap.stdout[-200:]); continue
-    out = {}
-    env = dict(os.environ, VERIF_REPO=COPY, VERIF_OUT=OUT)
-    for p in props:
-        t0 = time.time()
-        r = subprocess.run(["./verif", "check", p, "--tier", "quick"], cwd="/verif", capture_output=True, text=True, env=env)
-        lines = [l for l in r.stdout.split("\n") if l.startswith(("VIOLATION", "TOOL-FAILURE", "KNOWN-FINDING"))]
-        out[p] = {"rc": r.returncode, "lines": [l[:500] for l in lines], "wall_s": round(time.time() - t0, 1)}
-        print(n, p, "rc=%d" % r.returncode, [l[:300] for l in lines[:2]], flush=True)
-    results = json.load(open(respath)) if os.path.exists(respath) else {}
-    results[n] = {"applied": True, "checks": out, "detected": any(v["rc"] == 1 for v in out.values())}
-    json.dump(results, open(respath, "w"), indent=1)
-shutil.rmtree(COPY, ignore_errors=True)
+
+
+def save(n, rec):
+    with open(respath + ".lock", "w") as lk:
+        fcntl.flock(lk, fcntl.LOCK_EX)
+        results = json.load(open(respath)) if os.path.exists(respath) else {}
+        results[n] = rec
+        json.dump(results, open(respath, "w"), indent=1, sort_keys=True)
+
+
+def worker(wid, names):
+    snap = "/tmp/verif-snap%d" % wid
+    copy = "/tmp/verif-seeded-repo%d" % wid
+    out = "/tmp/verif-seeded-out%d" % wid
+    shutil.rmtree(snap, ignore_errors=True)
+    subprocess.run(["rsync", "-a", "--exclude", ".git", "--exclude", "seeded", "--exclude", "design_probes",
+                    "--exclude", ".cache/kres", "/verif/", snap + "/"], check=True)
+    # private scratch paths for this snapshot
+    k = os.path.join(snap, "lib", "krun.py")
+    t = open(k).read().replace('SCRATCH = "/tmp/verif-scratch"', 'SCRATCH = "/tmp/verif-scratch-w%d"' % wid)
+    open(k, "w").write(t)
+    v = os.path.join(snap, "verif")
+    t = open(v).read().replace('WORK = "/tmp/verif-vwork"', 'WORK = "/tmp/verif-vwork-w%d"' % wid)
+    open(v, "w").write(t)
+    for n in names:
+        d = os.path.join(SEEDED, n)
+        meta = json.load(open(os.path.join(d, "meta.json")))
+        props = meta.get("check_properties") or [meta["property"]]
+        shutil.rmtree(copy, ignore_errors=True)
+        os.makedirs(copy)
+        subprocess.run(["rsync", "-a", "--exclude", "target", "--exclude", "node_modules", "--exclude", "javascript",
+                        "--exclude", ".git", "/repo/", copy + "/"], check=True)
+        ap = subprocess.run(["patch", "-p1", "--no-backup-if-mismatch", "-i", os.path.join(d, "patch.diff")],
+                            cwd=copy, capture_output=True, text=True)
+        if ap.returncode != 0:
+            save(n, {"applied": False, "err": (ap.stdout + ap.stderr)[-400:]})
+            print(n, "PATCH DOES NOT APPLY", flush=True)
+            continue
+        res = {}
+        env = dict(os.environ, VERIF_REPO=copy, VERIF_OUT=out, VERIF_NO_REPLAY="1")
+        for p in props:
+            t0 = time.time()
+            r = subprocess.run(["./verif", "check", p, "--tier", "quick"], cwd=snap, capture_output=True, text=True, env=env)
+            lines = [l for l in r.stdout.split("\n") if l.startswith(("VIOLATION", "TOOL-FAILURE", "KNOWN-FINDING"))]
+            res[p] = {"rc": r.returncode, "lines": [l[:500] for l in lines], "wall_s": round(time.time() - t0, 1)}
+            print("w%d" % wid, n, p, "rc=%d" % r.returncode, [l[:200] for l in lines[:2]], flush=True)
+        det = any(v["rc"] == 1 for v in res.values())
+        save(n, {"applied": True, "checks": res, "detected": det,
+                 "tool_failure_only": (not det) and any(v["rc"] == 2 for v in res.values())})
+    shutil.rmtree(copy, ignore_errors=True)
+
+
+if __name__ == "__main__":
+    a = sys.argv[1:]
+    nw = 1
+    if "--workers" in a:
+        i = a.index("--workers")
+        nw = int(a[i + 1])
+        del a[i:i + 2]
+    only_missing = "--only-missing" in a
+    a = [x for x in a if x != "--only-missing"]
+    names = a or sorted(d for d in os.listdir(SEEDED) if os.path.isdir(os.path.join(SEEDED, d)))
+    if only_missing and os.path.exists(respath):
+        done = json.load(open(respath))
+        names = [n for n in names if n not in done]
+    parts = [names[i::nw] for i in range(nw)]
+    pids = []
+    for w, part in enumerate(parts):
+        pid = os.fork()
+        if pid == 0:
+            worker(w, part)
+            os._exit(0)
+        pids.append(pid)
+    for pid in pids:
+        os.waitpid(pid, 0)
